@@ -525,6 +525,14 @@ def run_generic(ctx):
     if getattr(p, "REFUTED", None):
         cov["refuted"] = p.REFUTED
 
+    if tier == "thorough" and ok_prop:
+        ck = coqchk(ctx.id)
+        cov["coqchk"] = ck
+        tb.append("coqchk (independent checker) on Dolt.Properties.%s: %s" % (ctx.id, ck.get("summary", "")))
+        if not ck.get("ok"):
+            obligations_ok = False
+            broken.append("coqchk rejects Properties/%s.vo: %s" % (ctx.id, ck.get("summary", "")[:300]))
+
     if binary is None:
         # The harness does not compile against the current tree: correspondence cannot run.
         broken.append("correspondence harness does not build against /repo (API changed?)")
@@ -554,6 +562,27 @@ def run_generic(ctx):
         return finish(ctx, ev, cov, cases, outs, {}, broken, corr_ran=False)
     ctx.binary = binary
     return finish(ctx, ev, cov, cases, outs, codes, broken, corr_ran=True)
+
+
+def coqchk(pid, timeout=3000):
+    """Thorough tier: re-check the compiled property file and everything it depends on with the
+    independent checker, and record the axioms it reports. Cached per content hash of the .vo."""
+    vo = os.path.join(THEORIES, "Properties", pid + ".vo")
+    try:
+        h = hashlib.sha1(open(vo, "rb").read()).hexdigest()
+    except OSError:
+        return {"ok": False, "summary": "no .vo"}
+    cache = os.path.join(WORK, "coqchk_%s_%s.json" % (pid, h))
+    if os.path.exists(cache):
+        return json.load(open(cache))
+    rc, o, e = sh(["coqchk", "-silent", "-o", "-Q", "theories", "Dolt", "Dolt.Properties." + pid], cwd=COQ, timeout=timeout)
+    txt = (o + e).strip()
+    m = re.search(r"CONTEXT SUMMARY.*", txt, re.S)
+    res = {"ok": rc == 0, "rc": rc, "summary": re.sub(r"\s+", " ", (m.group(0) if m else txt[-1500:]))[:3000]}
+    if rc == 0:
+        with open(cache, "w") as f:
+            json.dump(res, f)
+    return res
 
 
 TRUSTED_BASE_COMMON = [
